@@ -218,18 +218,36 @@ class MetadataManager:
                 metadata_path = f"{self.metadata_path}/{metadata_file}"
                 self._write_metadata_file(metadata_path, new_metadata)
 
-                # PHASE 3.5: Fencing - re-validate lock ownership immediately
-                # before the commit point. A holder whose lease was broken (e.g.
-                # after a long pause) must not flip the hint.
-                if not self.lock_provider.is_held():
-                    raise ConcurrentModificationException(
-                        "Lost distributed lock before commit point; retrying"
-                    )
+                try:
+                    # PHASE 3.5: Fencing - re-validate lock ownership immediately
+                    # before the commit point. A holder whose lease was broken (e.g.
+                    # after a long pause) must not flip the hint.
+                    if not self.lock_provider.is_held():
+                        raise ConcurrentModificationException(
+                            "Lost distributed lock before commit point; retrying"
+                        )
 
-                # PHASE 4: Atomically make new version visible.
-                # This is the commit point - after this, the new metadata is visible.
-                # If we crash before this, the new metadata file is orphaned but table is consistent.
-                self._write_hint_at_commit_point(metadata_file, hint_etag)
+                    # PHASE 4: Atomically make new version visible.
+                    # This is the commit point - after this, the new metadata is visible.
+                    # If we crash before this, the new metadata file is orphaned but table is consistent.
+                    self._write_hint_at_commit_point(metadata_file, hint_etag)
+                except AmbiguousCommitError:
+                    # The hint may name the new file: it must stay.
+                    raise
+                except Exception:
+                    # KNOWN not committed (lost fence, CAS conflict, atomic local
+                    # write failure). Remove the never-visible metadata file: left
+                    # behind it carries the highest version number, so if the hint
+                    # is later lost, recovery-by-scan would surface this version
+                    # that was never committed (and whose data files the caller
+                    # rolls back).
+                    try:
+                        self.storage.delete_file(metadata_path)
+                    except Exception as cleanup_error:
+                        logger.warning(
+                            f"Could not remove uncommitted metadata file {metadata_path}: {cleanup_error}"
+                        )
+                    raise
 
                 # Success - update in-memory version
                 self.current_version = next_version
